@@ -53,6 +53,10 @@ def main():
         res = []
         for c in cards_in:
             try:
+                from yadism.esf import conv as _conv
+
+                for k, val in (c.get("knobs") or {}).items():
+                    setattr(_conv, k, val)
                 o = run.run(c["theory"], c["obs"])
                 item = {}
                 for name in c["obs"]["observables"]:
